@@ -336,12 +336,6 @@ theorem addParam_coherent {s s' : PSet V} {p : Param V} {front : Bool} (hs : Coh
 
 /-! ### the fix / float loop -/
 
-/-- what the loop does to one parameter -/
-def applyF (f : Param V → Except Err (Option (Param V))) (p : Param V) : Param V :=
-  match f p with
-  | .ok (some p') => p'
-  | _ => p
-
 theorem set_at_length {α : Type} (pre : List α) (x y : α) (rest : List α) :
     (pre ++ x :: rest).set pre.length y = pre ++ y :: rest := by
   induction pre with
@@ -506,19 +500,21 @@ theorem editAll_coherent (f : Param V → Except Err (Option (Param V)))
       obtain ⟨p, hp, rfl⟩ := List.mem_map.1 hq
       exact applyF_wf hwf p (hs.wf p hp)
 
-theorem fixF_name (req : List (String × Option V)) (p p' : Param V) (h : PSet.fixF req p = .ok (some p')) :
+theorem fixF_name (req : List (String × FixVal V)) (p p' : Param V) (h : PSet.fixF req p = .ok (some p')) :
     p'.name = p.name ∧ ParamWF p' := by
   unfold PSet.fixF at h
   cases hd : dget req p.name with
   | none => rw [hd] at h; cases h
-  | some ini =>
+  | some x =>
     rw [hd] at h
     simp only at h
     by_cases hf : p.isfixed = true
     · rw [if_pos hf] at h; cases h
     · rw [if_neg hf] at h
-      cases h
-      exact ⟨(makeFixed_props p ini).1, (makeFixed_props p ini).2.1⟩
+      cases x with
+      | bad => cases h
+      | cur => cases h; exact ⟨(makeFixed_props p none).1, (makeFixed_props p none).2.1⟩
+      | val v => cases h; exact ⟨(makeFixed_props p (some v)).1, (makeFixed_props p (some v)).2.1⟩
 
 theorem floatF_name (req : List (String × PSet.FloatEntry V)) (p p' : Param V)
     (h : PSet.floatF req p = .ok (some p')) : p'.name = p.name ∧ ParamWF p' := by
@@ -656,6 +652,173 @@ theorem createAll_wf {as : List (PArgs V)} {ps : List (Param V)} (h : createAll 
         rcases List.mem_cons.1 hq with h3 | h3
         · subst h3; exact (create_wf h1).1
         · exact ih h2 q h3
+
+/-! ### what `_params` becomes (simulation of the specification machine) -/
+
+theorem addParam_ok {s : PSet V} (hs : Coherent s) {p : Param V} (hp : ParamWF p) (front : Bool)
+    (hn : p.name ∉ s.params.map (·.name)) :
+    ∃ s', s.addParam p front = .ok s' ∧ Coherent s' ∧
+      s'.params = (if front then p :: s.params else s.params ++ [p]) := by
+  have hno : ¬ s.hasName p.name = true := fun h => hn ((hasName_iff hs _).1 h)
+  have : ∃ s', s.addParam p front = .ok s' := by
+    unfold PSet.addParam
+    rw [if_neg hno]
+    exact ⟨_, rfl⟩
+  obtain ⟨s', h⟩ := this
+  exact ⟨s', h, (addParam_coherent hs hp h).1, (addParam_coherent hs hp h).2⟩
+
+theorem addParam_dup {s : PSet V} (hs : Coherent s) (p : Param V) (front : Bool)
+    (h : p.name ∈ s.params.map (·.name)) : s.addParam p front = .error .keyError := by
+  unfold PSet.addParam
+  simp [(hasName_iff hs p.name).2 h]
+
+theorem addAll_params {s : PSet V} {ps : List (Param V)} (hs : Coherent s) (hw : ∀ p ∈ ps, ParamWF p)
+    (hnd : ((s.params ++ ps).map (·.name)).Nodup) :
+    ∃ s', PSet.addAll s ps = .ok s' ∧ Coherent s' ∧ s'.params = s.params ++ ps := by
+  induction ps generalizing s with
+  | nil => exact ⟨s, rfl, hs, by simp⟩
+  | cons p ps ih =>
+    have hn : p.name ∉ s.params.map (·.name) := not_mem_pre hnd
+    obtain ⟨s1, h1, hc1, hp1⟩ := addParam_ok hs (hw p (by simp)) false hn
+    simp only [Bool.false_eq_true, if_false] at hp1
+    obtain ⟨s', h2, hc2, hp2⟩ := ih hc1 (fun q hq => hw q (by simp [hq])) (by rw [hp1]; simpa using hnd)
+    refine ⟨s', ?_, hc2, by rw [hp2, hp1]; simp⟩
+    unfold PSet.addAll
+    rw [h1]
+    exact h2
+
+theorem addAll_dup {s : PSet V} {ps : List (Param V)} (hs : Coherent s) (hw : ∀ p ∈ ps, ParamWF p)
+    (hnd : ¬ ((s.params ++ ps).map (·.name)).Nodup) : PSet.addAll s ps = .error .keyError := by
+  induction ps generalizing s with
+  | nil => exact absurd (by simpa using hs.nodup) hnd
+  | cons p ps ih =>
+    unfold PSet.addAll
+    by_cases hn : p.name ∈ s.params.map (·.name)
+    · rw [addParam_dup hs p false hn]
+    · obtain ⟨s1, h1, hc1, hp1⟩ := addParam_ok hs (hw p (by simp)) false hn
+      simp only [Bool.false_eq_true, if_false] at hp1
+      rw [h1]
+      exact ih hc1 (fun q hq => hw q (by simp [hq])) (by rw [hp1]; simpa using hnd)
+
+theorem addMissing_params {s : PSet V} {ps : List (Param V)} (hs : Coherent s) (hw : ∀ p ∈ ps, ParamWF p)
+    (hnd : (ps.map (·.name)).Nodup) :
+    ∃ s', PSet.addMissing s ps = .ok s' ∧ Coherent s' ∧
+      s'.params = s.params ++ ps.filter (fun p => !(s.params.map (·.name)).contains p.name) := by
+  induction ps generalizing s with
+  | nil => exact ⟨s, rfl, hs, by simp⟩
+  | cons p ps ih =>
+    have hw' : ∀ q ∈ ps, ParamWF q := fun q hq => hw q (by simp [hq])
+    have hnd' : (ps.map (·.name)).Nodup := by
+      rw [List.map_cons, List.nodup_cons] at hnd; exact hnd.2
+    have hpn : p.name ∉ ps.map (·.name) := by
+      rw [List.map_cons, List.nodup_cons] at hnd; exact hnd.1
+    unfold PSet.addMissing
+    by_cases hn : p.name ∈ s.params.map (·.name)
+    · rw [if_pos ((hasName_iff hs _).2 hn)]
+      obtain ⟨s', h2, hc2, hp2⟩ := ih hs hw' hnd'
+      refine ⟨s', h2, hc2, ?_⟩
+      rw [hp2, List.filter_cons]
+      simp
+      exact List.mem_map.1 hn
+    · rw [if_neg (fun h => hn ((hasName_iff hs _).1 h))]
+      obtain ⟨s1, h1, hc1, hp1⟩ := addParam_ok hs (hw p (by simp)) false hn
+      simp only [Bool.false_eq_true, if_false] at hp1
+      rw [h1]
+      obtain ⟨s', h2, hc2, hp2⟩ := ih hc1 hw' hnd'
+      refine ⟨s', h2, hc2, ?_⟩
+      rw [hp2, hp1, List.filter_cons]
+      have hc : (s.params.map (·.name)).contains p.name = false := by
+        cases h : (s.params.map (·.name)).contains p.name
+        · rfl
+        · exact absurd (List.contains_iff_mem.1 h) hn
+      have hfil : ps.filter (fun q => !((s.params ++ [p]).map (·.name)).contains q.name) =
+          ps.filter (fun q => !(s.params.map (·.name)).contains q.name) := by
+        apply List.filter_congr
+        intro q hq
+        have hqp : q.name ≠ p.name := fun h => hpn (by rw [← h]; exact List.mem_map_of_mem hq)
+        simp [List.contains_iff_mem, hqp]
+      rw [hfil]
+      simp
+      intro x hx h
+      exact hn (List.mem_map.2 ⟨x, hx, h⟩)
+
+theorem union_params {a b : PSet V} (ha : Coherent a) (hb : Coherent b) :
+    ∃ u, PSet.union a b = .ok u ∧ Coherent u ∧ u.params = Spec.unionList a.params b.params := by
+  obtain ⟨u0, h0, hc0, hp0⟩ := addAll_params (s := PSet.empty) (ps := a.params) coherent_empty ha.wf
+    (by simpa [PSet.empty] using ha.nodup)
+  have hp0' : u0.params = a.params := by simpa [PSet.empty] using hp0
+  obtain ⟨u, h1, hc1, hp1⟩ := addMissing_params hc0 hb.wf hb.nodup
+  refine ⟨u, ?_, hc1, by rw [hp1, hp0']; rfl⟩
+  unfold PSet.union
+  rw [h0]
+  exact h1
+
+theorem setValue_eq {p p' : Param V} {v : V} (h : p.setValue v = .ok p') : p' = { p with value := v } := by
+  unfold Param.setValue at h
+  split at h
+  · split at h
+    · cases h
+    · cases h; rfl
+  · split at h
+    · cases h
+    · split at h
+      · cases h
+      · split at h
+        · cases h
+        · split at h
+          · cases h
+          · cases h; rfl
+
+theorem setValueAux_spec (n : String) (v : V) (ps : List (Param V)) (hnd : (ps.map (·.name)).Nodup) :
+    PSet.setValueAux n v ps = match ps.find? (fun p => p.name = n) with
+      | none => .error .keyError
+      | some p => match p.setValue v with
+        | .error e => .error e
+        | .ok _ => .ok (ps.map (fun q => if q.name = n then { q with value := v } else q)) := by
+  induction ps with
+  | nil => rfl
+  | cons p ps ih =>
+    rw [List.map_cons, List.nodup_cons] at hnd
+    unfold PSet.setValueAux
+    by_cases hn : p.name = n
+    · rw [if_pos hn]
+      simp only [List.find?_cons, hn, decide_true]
+      cases hs : p.setValue v with
+      | error e => rfl
+      | ok p' =>
+        simp only
+        have htail : ps.map (fun q => if q.name = n then { q with value := v } else q) = ps := by
+          conv_rhs => rw [← List.map_id ps]
+          apply List.map_congr_left
+          intro q hq
+          have : q.name ≠ n := fun h => hnd.1 (by rw [hn, ← h]; exact List.mem_map_of_mem hq)
+          simp [this]
+        simp only [List.map_cons, hn, if_true, htail, setValue_eq hs]
+    · rw [if_neg hn, ih hnd.2]
+      simp only [List.find?_cons, hn, decide_false]
+      cases ps.find? (fun p => p.name = n) with
+      | none => rfl
+      | some q =>
+        simp only
+        cases q.setValue v with
+        | error e => rfl
+        | ok q' => simp [hn]
+
+theorem editAll_simulates (f : Param V → Except Err (Option (Param V)))
+    (hname : ∀ p p', f p = .ok (some p') → p'.name = p.name)
+    (hwf : ∀ p p', f p = .ok (some p') → ParamWF p') {s : PSet V} (hs : Coherent s) :
+    ((PSet.editAll f s).1.params, (PSet.editAll f s).2) = Spec.editAll f s.params := by
+  have h2 := (editAll_coherent f hname hwf hs).2
+  unfold Spec.editAll
+  unfold PSet.editAll at h2 ⊢
+  cases hv : PSet.validate f s.params with
+  | error e => rfl
+  | ok u =>
+    cases u
+    rw [hv] at h2
+    simp only at h2 ⊢
+    have hok := rebuildLoop_ok f s.params 0 s.clearCaches (validate_ok hv)
+    rw [h2 hok, hok]
 
 end order
 
